@@ -7,6 +7,7 @@ import (
 	"encoding/json"
 	"flag"
 	"fmt"
+	"go/types"
 	"os"
 	"sort"
 	"strconv"
@@ -22,7 +23,46 @@ func main() {
 	list := flag.Bool("list", false, "list properties and rules")
 	noEvidence := flag.Bool("no-evidence", false, "do not write the evidence file")
 	all := flag.Bool("all", false, "development aid: run every rule once on one load and print, per property, the obligations that are not discharged (no evidence, no replay files)")
+	simdump := flag.String("simdump", "", "development aid: print the effect normal form of one function (Type.Method or name)")
 	flag.Parse()
+	if *simdump != "" {
+		c, err := load(*repo, "linux", "amd64")
+		if err != nil {
+			fmt.Println("CHECKER-ERROR", err)
+			os.Exit(2)
+		}
+		for _, fd := range c.allFuncDecls() {
+			if c.funcName(fd) != *simdump || fd.Body == nil {
+				continue
+			}
+			var inl func(*types.Func) bool
+			if reach := os.Getenv("SIMREACH"); reach != "" {
+				inl = func(f *types.Func) bool {
+					return f.Name() != reach && c.reaches(f, func(h *types.Func) bool { return h.Name() == reach })
+				}
+			}
+			paths, unsup := c.simulate(fd, inl)
+			fmt.Printf("%s: %d paths, unsupported=%q\n", *simdump, len(paths), unsup)
+			for i, p := range paths {
+				fmt.Printf("-- path %d\n", i)
+				for _, cd := range p.conds {
+					fmt.Printf("   cond neg=%v loop=%v %s\n", cd.neg, cd.loop, svString(cd.v))
+				}
+				for _, e := range p.effs {
+					switch e.kind {
+					case "write":
+						fmt.Printf("   [%d] write %s := %s\n", e.ncond, svString(e.dst), svString(e.val))
+					case "call":
+						fmt.Printf("   [%d] call %s\n", e.ncond, svString(*e.call))
+					case "append":
+						fmt.Printf("   [%d] append %s <- %s\n", e.ncond, svString(e.base), svString(svList{e.elems}))
+					}
+				}
+				fmt.Printf("   return %s\n", svString(svList{p.rets}))
+			}
+		}
+		return
+	}
 	if *all {
 		os.Exit(runAll(*repo))
 	}
